@@ -7,6 +7,7 @@ CONSTANTS
   SegLens = {}
   MaxTotal = 0
   NoCtx <- TraceNone
+  SbThreshold <- TraceSb
   TrackStream = FALSE
 POSTCONDITION TraceAccepted
 CHECK_DEADLOCK FALSE
